@@ -105,10 +105,8 @@ theorem wrow_in (A : List (List α)) (r : Int) (ch : List Int) (h0 : 0 ≤ r) (h
   rw [List.getElem?_eq_getElem hlt, hg]
   simp only [Option.map_some, mrow, h0, h1, true_and]
 
--- `hA` (and `hn`, and the upper bound in `ChOK`) are not needed by the proof
-set_option linter.unusedVariables false in
-theorem extract_eq_window (A : List (List α)) (nch : Nat) (hA : Rect A nch) (s : Int)
-    (hs0 : 0 ≤ s) (hs : s < A.length) (n : Nat) (hn : 0 < n) (ch : List Int) (hch : ChOK nch ch) :
+theorem extract_eq_window (A : List (List α)) (nch : Nat) (s : Int)
+    (hs0 : 0 ≤ s) (hs : s < A.length) (n : Nat) (ch : List Int) (hch : ChOK nch ch) :
     extractWaveform A s n ch = window A s n ch := by
   rw [extract_form]
   apply List.ext_getElem?
@@ -220,11 +218,9 @@ theorem chain_filter {β : Type} (dur : Nat) (Z : List (Int × β))
         exact filter_split (a : Int) (b : Int) (by omega) Z hZ
       · cases h
 
--- `hlen` is not needed by the proof
-set_option linter.unusedVariables false in
 theorem iter_concat_eq_map (A : List (List α)) (ivs : List (Nat × Nat))
     (hT : intervalsTile A.length ivs = true) (spikes : List Int) (chans : List (List Int))
-    (hlen : chans.length = spikes.length) (hsorted : spikes.Pairwise (· ≤ ·))
+    (hsorted : spikes.Pairwise (· ≤ ·))
     (hb : ∀ s ∈ spikes, 0 ≤ s ∧ s < A.length) (n : Nat) :
     (iterWaveforms A ivs spikes chans n).flatten =
       (spikes.zip chans).map fun sc => extractWaveform A sc.1 n sc.2 := by
@@ -281,22 +277,20 @@ theorem length_row_window (A : List (List α)) (s : Int) (n : Nat) (ch : List In
   obtain ⟨i, _, rfl⟩ := hrow
   simp
 
--- `hnl` is not needed by the proof (`hn`, `hA` only feed `extract_eq_window`)
-set_option linter.unusedVariables false in
-theorem export_loads_windows (scale : α → α) (A : List (List α)) (nch : Nat) (hA : Rect A nch)
+theorem export_loads_windows (scale : α → α) (A : List (List α)) (nch : Nat)
     (ivs : List (Nat × Nat)) (hT : intervalsTile A.length ivs = true) (spikes : List Int)
     (chans : List (List Int)) (hlen : chans.length = spikes.length)
     (hsorted : spikes.Pairwise (· ≤ ·)) (hb : ∀ s ∈ spikes, 0 ≤ s ∧ s < A.length) (n : Nat)
-    (hn : 0 < n) (nloc : Nat) (hnl : 0 < nloc) (hch : ∀ c ∈ chans, c.length = nloc ∧ ChOK nch c) :
+    (nloc : Nat) (hch : ∀ c ∈ chans, c.length = nloc ∧ ChOK nch c) :
     npLoad (exportWaveforms scale A ivs spikes chans n nloc) =
       some ((spikes.zip chans).map fun sc => (window A sc.1 n sc.2).map fun row => row.map scale) := by
-  have hiter := iter_concat_eq_map A ivs hT spikes chans hlen hsorted hb n
+  have hiter := iter_concat_eq_map A ivs hT spikes chans hsorted hb n
   have hext : ((spikes.zip chans).map fun sc => extractWaveform A sc.1 n sc.2) =
       (spikes.zip chans).map fun sc => window A sc.1 n sc.2 := by
     apply List.map_congr_left
     intro z hz
     have hz' := List.of_mem_zip (a := z.1) (b := z.2) hz
-    exact extract_eq_window A nch hA z.1 (hb z.1 hz'.1).1 (hb z.1 hz'.1).2 n hn z.2 (hch z.2 hz'.2).2
+    exact extract_eq_window A nch z.1 (hb z.1 hz'.1).1 (hb z.1 hz'.1).2 n z.2 (hch z.2 hz'.2).2
   -- the expected result
   generalize hWs : ((spikes.zip chans).map fun sc =>
     (window A sc.1 n sc.2).map fun row => row.map scale) = Ws
@@ -362,15 +356,10 @@ theorem window_cell (A : List (List α)) (smp : Int) (n : Nat) (ind : List Int) 
       List.getElem_idxOf hlt, Option.map_some, List.map_cons, List.map_nil, List.getElem?_cons_zero]
   · simp [hr]
 
--- `hids`, `hdist` (and `hl3`) are not needed by the proof
-set_option linter.unusedVariables false in
 theorem lookup_eq_window (st : Store α) (A : List (List α)) (samples : List Int) (n : Nat)
-    (hids : st.spikeIds.Nodup)
     (hl1 : st.spikeChannels.length = st.spikeIds.length) (hl2 : st.waveforms.length = st.spikeIds.length)
-    (hl3 : samples.length = st.spikeIds.length)
     (hstore : ∀ p, p < st.spikeIds.length →
       st.waveforms.getD p [] = window A (samples.getD p 0) n (st.spikeChannels.getD p []))
-    (hdist : ∀ ind ∈ st.spikeChannels, (ind.filter (· ≠ -1)).Nodup)
     (query : List Nat) (hq : ∀ q ∈ query, q ∈ st.spikeIds) (chq : List Nat) :
     getSpikeWaveforms st query chq n = some (query.map fun q =>
       let p := st.spikeIds.idxOf q
